@@ -33,6 +33,8 @@ type Stats struct {
 	Outcomes    map[string]int64 `json:"outcomes"`
 	WallS       float64          `json:"wall_s"`
 	Replays     int64            `json:"determinism_replays"`
+	SitePasses  int              `json:"site_discovery_passes"`
+	SharedSites int              `json:"shared_sites"`
 }
 
 type Violation struct {
@@ -56,6 +58,7 @@ type Explorer struct {
 	AllViol       map[string]*Violation // first violation per clause signature
 	StopFirst     bool
 	cache         map[Key]int16
+	restart       bool
 	stop          bool
 	SampleChoices [][]int
 }
@@ -175,6 +178,12 @@ func (e *Explorer) explore(prefix []int, bound int) {
 		return
 	}
 	r := e.runOnce(prefix, bound, !e.NoPrune, false)
+	if MergePendingSites() {
+		e.Stats.Executions++
+		e.Stats.Transitions += int64(r.Steps)
+		e.restart, e.stop = true, true
+		return
+	}
 	e.record(&r, bound)
 	ch := choicesOf(&r)
 	for i := len(r.Points) - 1; i >= len(prefix); i-- {
@@ -207,15 +216,29 @@ func (e *Explorer) Explore() {
 			bounds = append(bounds, b)
 		}
 	}
-	for _, b := range bounds {
+	for bi := 0; bi < len(bounds); bi++ {
+		b := bounds[bi]
 		e.cache = map[Key]int16{}
 		e.Stats.States = 0
+		e.restart = false
 		e.explore(nil, b)
+		if e.restart {
+			// a call site turned out to operate on a shared object: executions explored so far did
+			// not yield there, so exploration starts again with the larger (frozen) site set
+			e.Stats.SitePasses++
+			e.stop = false
+			e.Viol, e.AllViol = nil, nil
+			e.SampleChoices = nil
+			e.Stats.Outcomes = map[string]int64{}
+			bi = -1
+			continue
+		}
 		if e.stop {
 			break
 		}
 		e.Stats.BoundDone = b
 	}
+	e.Stats.SharedSites = len(sharedKeys)
 	e.Stats.Exhaustive = !e.stop && e.Stats.CapHit == ""
 	if e.Bound < 0 && e.Stats.Exhaustive {
 		e.Stats.BoundDone = -1
